@@ -36,6 +36,7 @@ pub const EXTRA: &[(&str, &str)] = &[
     ("span_pops", "fn f(a: u8) -> u32 { let arr = array![1_u32, 2, 3]; let mut sp = arr.span(); let mut t = 0_u32; let mut i = 0_u8; while i != a % 5 { i += 1; match sp.pop_back() { Some(x) => { t += *x; }, None => { t += 100; } } match sp.pop_front() { Some(x) => { t += *x * 10; }, None => { t += 1000; } } } t + sp.len() }\n"),
     ("multi_pop", "fn f(a: u8) -> u32 { let arr = array![1_u32, 2, 3, 4, 5]; let mut sp = arr.span(); let mut t = 0_u32; let mut i = 0_u8; while i != a % 4 { i += 1; match sp.multi_pop_front::<2>() { Some(x) => { let [p, q] = (*x).unbox(); t += p + q; }, None => { t += 100; } } } match sp.multi_pop_back::<3>() { Some(x) => { let [p, _q, r] = (*x).unbox(); t += p * r; }, None => { t += 7; } } t }\n"),
     ("qm31_const_ops", "#[feature(\"bounded-int-utils\")]\nuse core::internal::bounded_int::upcast;\nuse core::qm31::{qm31, qm31_const, QM31Trait, m31};\n#[inline(never)]\nfn seed(k: m31) -> qm31 { QM31Trait::new(k, 6, 7, 8) }\n#[inline(never)]\nfn square(a: qm31) -> qm31 { a * a }\nfn f(k: m31) -> (felt252, felt252) { let x = seed(k); let y = x + qm31_const::<1, 2, 3, 4>(); let z = square(y) - qm31_const::<0, 0, 0, 1>(); let w = z * qm31_const::<2, 0, 0, 0>(); let [a, b, _c, _d] = w.unpack(); (upcast(a), upcast(b)) }\n"),
+    ("builtins_in_loops", "use core::ec::{EcStateTrait, EcPointTrait};\nfn bitwise_loop(n: u8) -> u128 { let mut acc: u128 = 0xff00ff; let mut i: u8 = 0; while i != n % 6 { acc = (acc & 0x0f0f0f) | (acc ^ i.into()); i += 1; } acc }\nfn hash_loop(n: u8) -> felt252 { let mut acc: felt252 = 7; let mut i: u8 = 0; while i != n % 5 { acc = core::pedersen::pedersen(acc, i.into()); let (x, _, _) = core::poseidon::hades_permutation(acc, 1, 2); acc = x; i += 1; } acc }\nfn ec_loop(n: u8) -> felt252 { let g = core::ec::EcPointTrait::new_from_x(1).unwrap(); let gnz: NonZero<core::ec::EcPoint> = g.try_into().unwrap(); let mut s = core::ec::EcStateTrait::init(); let mut i: u8 = 0; while i != n % 4 { s.add_mul(i.into() + 2, gnz); i += 1; } s.add(gnz); match s.finalize_nz() { Some(p) => { let (x, _) = core::ec::ec_point_unwrap(p); x }, None => 0 } }\nfn f(n: u8) -> felt252 { bitwise_loop(n).into() + hash_loop(n) + ec_loop(n) }\n"),
     ("while_let", "fn f(a: u8, b: u8) -> u16 { let mut arr = array![a, b, 9]; let mut t: u16 = 0; while let Some(x) = arr.pop_front() { t += x.into(); } t }\n"),
 ];
 
